@@ -794,3 +794,5 @@ for _n in range(1, 7):
     B("C03", _n)
 for _n in range(1, 7):
     B("C06", _n)
+for _n in range(1, 7):
+    B("C09", _n)
